@@ -166,7 +166,8 @@ class Kauri(ClusterMixin, BaseEstimator, ABC):
                 kernel = y
         else:
             kernel = pairwise_kernels(X, metric=self.kernel)
-        return kernel
+        # The compiled split search only handles double precision kernels
+        return np.asarray(kernel, dtype=np.float64)
 
     def fit(self, X, y=None):
         """Performs the KAURI algorithm by repeatedly choosing leaves, evaluating best gain and increasing the tree
